@@ -2504,8 +2504,11 @@ def gen_apifx(src_dir):
                     e = st[3]
                     name = st[1][1] if st[1][0] == 'ppath' else None
                     if e[0] == 'try' and e[1][0] == 'mcall' and e[1][2] == 'stack_validate':
-                        out.append('FxOtherFallible "stack_validate"')
-                        continue
+                        # let stack_usage = self.stack_verifier.stack_validate(prog)?
+                        if name == 'stack_usage' and fld(e[1][1]) == 'stack_verifier' and [norm(x) for x in e[1][3]] == ['prog']:
+                            out.append('FxValidateArg')
+                            continue
+                        raise Unsupported("%s::%s: let %s" % (ty, fn, show(e)[:60]))
                     if e[0] == 'match' and fld(e[1]) == 'prog' and name == 'prog':
                         some = [x for x in e[2] if x[0][0] == 'pctor' and x[0][1] == 'Some']
                         none = [x for x in e[2] if x[0] == ('ppath', 'None')]
@@ -2518,7 +2521,12 @@ def gen_apifx(src_dir):
                         if len(some) == 1 and len(none) == 1 and norm(some[0][2]) == some[0][0][2][0][1]:
                             out.append('FxTakeExecMem')
                             continue
-                    if e[0] == 'call' and norm(e[1]) in ('StackVerifier::new', 'CraneliftCompiler::new'):
+                    if e[0] == 'call' and norm(e[1]) == 'StackVerifier::new':
+                        if name == 'stack_verifier' and [norm(x) for x in e[2]] == ['Some(calculator)', 'Some(data)']:
+                            out.append('FxNewCalc')
+                            continue
+                        raise Unsupported("%s::%s: let %s" % (ty, fn, show(e)[:60]))
+                    if e[0] == 'call' and norm(e[1]) == 'CraneliftCompiler::new':
                         out.append('FxOther "%s"' % norm(e[1]))
                         continue
                     if e[0] == 'try' and e[1][0] == 'mcall' and e[1][2] == 'compile_function' and norm(e[1][3][0]) == 'prog':
@@ -2547,15 +2555,18 @@ def gen_apifx(src_dir):
                         if isinstance(x, tuple) and x and x[0] == 'mcall' and x[2] == 'stack_validate':
                             return True
                         return isinstance(x, (tuple, list)) and any(has_validate(y) for y in x)
-                    if len(b) == 1 and b[0][1][0] == 'assign' and fld(b[0][1][2]) == 'stack_usage' and has_validate(b[0][1][3]):
-                        out.append('FxOtherFallible "stack_validate"')
+                    v_ = b[0][1][3] if len(b) == 1 and b[0][1][0] == 'assign' else None
+                    if v_ is not None and b[0][1][1] == '=' and fld(b[0][1][2]) == 'stack_usage' and v_[0] == 'call' and norm(v_[1]) == 'Some' and \
+                            len(v_[2]) == 1 and v_[2][0][0] == 'try' and v_[2][0][1][0] == 'mcall' and norm(v_[2][0][1][1]) == 'stack_verifier' and \
+                            v_[2][0][1][2] == 'stack_validate' and [norm(x) for x in v_[2][0][1][3]] == ['prog']:
+                        out.append('FxValidateLoadedIntoUsage')
                         continue
                 if e[0] == 'assign' and e[1] == '=':
                     f = fld(e[2])
                     v = norm(e[3])
                     table = {('prog', 'Some(prog)'): 'FxSetProg', ('verifier', 'verifier'): 'FxSetVerifier', ('jit', 'None'): 'FxClear "jit"',
-                             ('cranelift_prog', 'None'): 'FxClear "cranelift"', ('stack_usage', 'Some(stack_usage)'): 'FxOther "stack_usage"',
-                             ('stack_verifier', 'stack_verifier'): 'FxOther "stack_verifier"', ('cranelift_prog', 'Some(program)'): 'FxStore "cranelift"'}
+                             ('cranelift_prog', 'None'): 'FxClear "cranelift"', ('stack_usage', 'Some(stack_usage)'): 'FxSetUsage',
+                             ('stack_verifier', 'stack_verifier'): 'FxSetCalc', ('cranelift_prog', 'Some(program)'): 'FxStore "cranelift"'}
                     if (f, v) in table:
                         out.append(table[(f, v)])
                         continue
